@@ -112,6 +112,13 @@ def cells(tier):
                             cfg["scal"] = "py"
                     cfg["id"] = f"{op.name}|{da}|{db or ''}|{k}"
                     cfg["extra_call"] = None
+                    awk_involved = any(k_ in build.AK_LAYOUTS or k_ == "record" for k_ in (cfg["ka"], cfg.get("kb")))
+                    if (h >> 19) % 3 == 0 and not cfg.get("ints") and not awk_involved:
+                        # NumPy operands stored in non-native byte order
+                        if cfg["ka"] in build.NP_LAYOUTS + build.NP_VIEW_LAYOUTS:
+                            cfg["dtype_a"] = "be"
+                        if cfg.get("kb") in build.NP_LAYOUTS + build.NP_VIEW_LAYOUTS:
+                            cfg["dtype_b"] = "be"
                     out.append(cfg)
     for name, (needs_other, _) in EXTRA.items():
         for d in (2, 3, 4):
@@ -126,6 +133,8 @@ def cells(tier):
                        "scal": "py", "extra": bool((h >> 16) % 2), "alt": (h >> 17) % 3,
                        "spa": "momentum" if ((h >> 11) % 2 and ka in build.AK_LAYOUTS + ("record",) and (h >> 18) % 2) else "generic",
                        "spb": "generic"}
+                if (h >> 20) % 2 == 0 and ka in build.NP_LAYOUTS + build.NP_VIEW_LAYOUTS and cfg.get("kb") not in build.AK_LAYOUTS + ("record",):
+                    cfg["dtype_a"] = "be"
                 out.append(cfg)
     return out
 
